@@ -1062,8 +1062,9 @@ func setChild(md map[uint32]*metadataEntry, pb *bolt.Bucket, pid uint32, base st
 	if md[pid].children == nil {
 		md[pid].children = make(map[string]childEntry)
 	}
+	old, exists := md[pid].children[base]
 	md[pid].children[base] = childEntry{base, id}
-	if isDir {
+	if isDir && !(exists && old.id == id) { // count a sub-directory listed twice (or after its children) once
 		numLink, _ := binary.Varint(pb.Get(bucketKeyNumLink))
 		if err := putInt(pb, bucketKeyNumLink, numLink+1); err != nil {
 			return fmt.Errorf("cannot add numlink for children: %w", err)
